@@ -89,13 +89,16 @@ def run(tier):
     universe = "small" if tier == "quick" else "full"
     with open(vp.SPEC + "/MC_Registry_run.cfg", "w") as f:
         f.write(open(vp.SPEC + "/MC_Registry.cfg").read().replace('Universe = "small"', 'Universe = "%s"' % universe))
-    r = vp.tlc("MC_Registry", "MC_Registry_run", workers=4, timeout=3000, name="c10", xmx="16g")
+    r = vp.tlc("MC_Registry", "MC_Registry_run", workers=4, timeout=3000, name="c10", xmx="16g", lazy=("EDGE",))
     C.add_tlc(r, "MC_Registry universe=%s" % universe)
-    edges = r.tags["EDGE"]
+    edges = r.tags["EDGE"]          # JSON texts, decoded when chosen (there are 10^5 .. 10^6 of them)
     C.cov["rule"] = ("every transition TLC explores in the registry state machine (3 names, %d-descriptor universe, batches of <= 2, 2 suffix sets), "
                      "each replayed from 2 histories; non-trivial = distinct (pre, action) where pre is non-empty or the action is refused" % (13 if universe == "small" else 16))
     rnd = random.Random(vp.seed() + 5)
-    limit = 25000 if tier == "quick" else 200000
+    limit = 25000 if tier == "quick" else 120000
+    n_explored = len(edges)
+    if len(edges) <= limit:
+        edges = [json.loads(x) for x in edges]
     if len(edges) > limit:
         # kept in any case: transitions that involve the same-length text variant, and (up to 12000) "dependent
         # replacements" -- the call re-registers a name that another present template extends, includes or takes a component
@@ -110,20 +113,24 @@ def run(tier):
                         return True
             return False
         isv2 = lambda e: '"v2": true' in json.dumps(e.get("act")) or '"v2": true' in json.dumps(e.get("pre"))
-        keep = [e for e in edges if isv2(e)]
+        keep, dep, rest = [], [], []          # indices; every text is decoded once to classify it, and again only if chosen
+        for i_, raw in enumerate(edges):
+            e_ = json.loads(raw)
+            (keep if isv2(e_) else dep if dependent(e_) else rest).append(i_)
         keep = keep if len(keep) <= 4000 else rnd.sample(keep, 4000)
-        dep = [e for e in edges if not isv2(e) and dependent(e)]
-        dep = dep if len(dep) <= 12000 else rnd.sample(dep, 12000)
-        rest = [e for e in edges if not isv2(e) and not dependent(e)]
+        cap_dep = 12000 if tier == "quick" else 60000
+        dep = dep if len(dep) <= cap_dep else rnd.sample(dep, cap_dep)
         C.cov["dependent_replacements_kept"] = len(dep)
-        edges = keep + dep + rnd.sample(rest, max(0, limit - len(keep) - len(dep)))
+        chosen = keep + dep + rnd.sample(rest, max(0, limit - len(keep) - len(dep)))
+        edges = [json.loads(edges[i_]) for i_ in chosen]
         C.cov["exhaustive"] = False
-        C.notes.append("replayed a VERIF_SEED sample of %d of %d explored transitions" % (limit, len(r.tags["EDGE"])))
+        C.notes.append("replayed a VERIF_SEED sample of %d of %d explored transitions" % (limit, n_explored))
     else:
         C.cov["exhaustive"] = True
     # chains of depth 4 (Universe "chain": names A, B, C.h, D; single adds): all transitions
     with open(vp.SPEC + "/MC_Registry_run.cfg", "w") as f:
         f.write(open(vp.SPEC + "/MC_Registry.cfg").read().replace('Universe = "small"', 'Universe = "chain"').replace('Names = {"A", "B", "C.h"}', 'Names = {"A", "B", "C.h", "D"}'))
+    del r
     rc = vp.tlc("MC_Registry", "MC_Registry_run", workers=4, timeout=3000, name="c10-chain", xmx="16g")
     C.add_tlc(rc, "MC_Registry universe=chain (4 names, single adds)")
     cedges = rc.tags["EDGE"]
